@@ -193,6 +193,11 @@ PRIMARY = [""]
 
 def validate_trace(workdir, trace, check, module="ResponderTrace.tla", tag="t", timeout=1200):
     """Returns dict(accepted, events, exercised, rejected_at, ln, states).  Raises Infra on TLC trouble."""
+    # TLC integers are 32-bit and the JSON reader wraps silently: refuse traces with wider numbers
+    with open(trace) as f:
+        for big in re.finditer(r"(?<![\d.])-?\d{10,}(?![\d.])", f.read()):
+            if abs(int(big.group(0))) >= 2 ** 31:
+                raise Infra("trace %s holds the number %s, which does not fit TLC's 32-bit integers" % (trace, big.group(0)))
     cfg = os.path.join(workdir, "%s.cfg" % tag)
     write_trace_cfg(cfg, check, primary=PRIMARY[0])
     r = tlc_run(workdir, module, cfg, workers=1, env={"TRACE": trace}, timeout=timeout)
